@@ -55,9 +55,10 @@ def check(ctx):
             c[rng.randrange(len(c))] ^= 1 << rng.randrange(8)
             progs.setdefault(bytes(c), "mutated-contract")
     keys = list(progs.keys())
-    if ctx.replay_in:
+    stage = vlib.stage_replay(ctx)
+    if ctx.replay_in and not stage:
         keys = [bytes.fromhex(json.load(open(ctx.replay_in))["replay"]["code"])]
-    if hb:
+    if hb and not stage:
         table = L.keccak_table(hb)
         vmo = L.vm(ctx, hb, keys)
         ano = L.analyze(ctx, hb, keys)
@@ -83,6 +84,8 @@ def check(ctx):
                              "input_classes": dict(collections.Counter(progs.values())),
                              "layouts_with_entries": nonempty,
                              "analysis_classes": dict(collections.Counter(str(L.xa_class(a)) for a in ano))})
+    import p_passes_slots
+    p_passes_slots.suite(ctx, translate=False, codes={10}, cov_key="lifting_passes_slots", only=r"^(C05_|K3_|.*_no_storage_access_identity|.*applies_to_key_and_value|no_lifted_input_ok|hashed_rewrites_outside_access|default_pipeline_shape|da_lift_fuel)")
     return vlib.finish(ctx, rule="distinct programs; non-trivial = storage-free program (must give an empty layout) or a program whose "
                        "layout has entries (each attributed)", samples=[c.hex()[:120] for c in keys[:3]])
 
